@@ -903,6 +903,7 @@ class World:
         for f in obs.fired:
             self.stats["fired"][f["kind"]] = self.stats["fired"].get(f["kind"], 0) + 1
         obs.post = self.snapshot_dir()
+        obs.clock_end = max(self.clock.max_seen, self.clock.now)
         obs.other_post = self.snapshot_other()
         obs.busy_after = self.busy_workers()
         obs.unlinks = self.fs.unlink_log[obs.unlink_from:]
